@@ -23,6 +23,7 @@ pub const K_LETTERLESS: &str = "C14-word-after-letterless-token-not-tried";
 pub const K_RIGHT_FLAG: &str = "C14-sync-copy-loses-right-boundary-flag";
 pub const K_LEFT_RERUN: &str = "C14-left-boundary-applied-again";
 pub const K_PREV_CONTEXT: &str = "C14-preceding-character-context-ignored";
+pub const K_PRE_BOUNDARY: &str = "C14-pre-break-at-word-start-without-left-boundary";
 
 /// The trusted lig/kern translation of a string in the case's font (the same compiled program and
 /// runner that built the input list): `(text, left_boundary_enabled, right_boundary_override)`.
@@ -139,7 +140,8 @@ pub fn check(before: &[N], after: &[N], ctx: &Ctx) -> Report {
             }
         }
         // nodes before the word are copied verbatim
-        while i < w.first {
+        let rs = region_start(before, w);
+        while i < rs {
             if after.get(k) != Some(&before[i]) {
                 let sig = if matches!(after.get(k), Some(N::Disc { .. })) {
                     "disc-outside-a-word-TeX-tries"
@@ -190,7 +192,12 @@ fn check_word(
     rep: &mut Report,
 ) -> bool {
     let hf = w.font;
-    let expected = &before[w.first..=w.last];
+    // TeX §903: if the node before the word (`ha`) is a ligature that consists of the left boundary
+    // alone, it is freed and reconstructed from scratch together with the word (hu[0]:=256).
+    let rs = region_start(before, w);
+    let expected = &before[rs..=w.last];
+    // the reconstitution (re)starts at the left boundary
+    let restarts_at_boundary = rs < w.first || matches!(before[w.first], N::Lig { left: true, .. });
     let word: String = w.letters.iter().collect();
     let needed = w.letters.len();
     // ---- the word's region in the output list
@@ -249,7 +256,7 @@ fn check_word(
             && !matches!(before[w.first], N::Lig { left: true, .. });
         // trigger (b): the node before the word is a character/ligature of the word's font (TeX's
         // `ha` is a char node: hu[0] is that character, §903) and it has a rule with the first letter
-        let prev_glyph = match w.first.checked_sub(1).map(|i| &before[i]) {
+        let prev_glyph = match rs.checked_sub(1).map(|i| &before[i]) {
             Some(N::Char { c, font }) if *font == hf => Some(*c),
             Some(N::Lig { c, font, .. }) if *font == hf => Some(*c),
             _ => None,
@@ -260,22 +267,31 @@ fn check_word(
             (ctx.runner)(&word, left, override_char).into_iter().map(|n| with_font(n, hf)).collect()
         };
         let regen_on = regen(true);
-        let regen_off = regen(false);
-        let is_on = same_modulo_sync_flags(&regen_on, &stripped);
-        let is_off = same_modulo_sync_flags(&regen_off, &stripped);
+        // what the implementation does today: the nodes before the word are copied, then the word
+        // is translated from the left boundary
+        let copied_then = |tail: Vec<N>| -> Vec<N> {
+            let mut v = before[rs..w.first].to_vec();
+            v.extend(tail);
+            v
+        };
+        let is_tex_restart = same_modulo_sync_flags(&regen_on, &stripped);
+        let is_on = same_modulo_sync_flags(&copied_then(regen_on.clone()), &stripped);
+        let is_off = same_modulo_sync_flags(&copied_then(regen(false)), &stripped);
+        // a node produced by the boundary program stands before the place where TeX restarts
+        let boundary_product_before = matches!(
+            rs.checked_sub(1).map(|i| &before[i]),
+            Some(N::Kern { normal: true, .. }) | Some(N::Lig { .. })
+        );
         if let Some(flips) = only_right_flags_lost(expected, region) {
             // trigger: a right-boundary ligature among the nodes a discretionary replaces;
             // deviation: it lost the flag (copied from includes_left_boundary, which is false there)
             rep.known.push((K_RIGHT_FLAG, detail(json!({"ligatures_that_lost_the_flag": flips}))));
             rep.count("known:right_flag_lost_in_sync_copy");
             aligned = true;
-        } else if matches!(before[w.first], N::Lig { left: true, .. })
-            && matches!(w.first.checked_sub(1).map(|i| &before[i]), Some(N::Kern { normal: true, .. }) | Some(N::Lig { .. }))
-            && is_on
-        {
-            // The word starts with a left-boundary ligature and the boundary program had already
-            // produced a kern/empty ligature before it. TeX §903 (found2) keeps that node and starts
-            // the reconstitution at the boundary again, so TeX itself repeats it. Not demanded.
+        } else if restarts_at_boundary && boundary_product_before && is_tex_restart {
+            // The boundary program had already produced a kern/ligature before the point where
+            // TeX §903 (found2 / init_lft) restarts the reconstitution at the boundary: TeX keeps
+            // that node and produces it again. TeX's own quirk in exotic fonts; not demanded.
             rep.count("excluded_from_(1):TeX_restarts_at_the_left_boundary_after_a_boundary_kern");
         } else if t_left && is_on {
             rep.known.push((
@@ -290,7 +306,7 @@ fn check_word(
                     "note": "word nodes = the word translated on its own; TeX translates it with the preceding character as left context (hu[0])"})),
             ));
             rep.count("known:preceding_character_context_ignored");
-        } else if t_follower && (is_on || is_off) {
+        } else if t_follower && (is_on || is_off || is_tex_restart) {
             // TeX itself reconstitutes the word with the following character as right boundary
             // (hyf_bchar, §897/§903) and keeps that character's own node: pinned by the unit tests
             // right_boundary_char_override_3..6. Not demanded, counted.
@@ -299,9 +315,9 @@ fn check_word(
             rep.violation(
                 "(1)-word-nodes-differ",
                 detail(json!({"trigger_left_boundary": t_left, "trigger_preceding_character": t_prev,
-                    "trigger_follower_ligature": t_follower,
+                    "trigger_follower_ligature": t_follower, "restarts_at_boundary": restarts_at_boundary,
                     "translated_with_left_boundary": show_list(&regen_on),
-                    "translated_without_left_boundary": show_list(&regen_off)})),
+                    "translated_without_left_boundary": show_list(&regen(false))})),
             );
         }
     } else {
@@ -380,17 +396,31 @@ fn check_word(
                 rep.count("discs_replacing_a_ligature");
             }
             // (2b) differential against the runner
-            let want_pre: Vec<N> = (ctx.runner)(&format!("{x}-"), false, None)
-                .into_iter()
-                .map(|n| with_font(n, hf))
-                .collect();
-            if *pre != want_pre {
+            // TeX §915 translates hu[l..i]+hyphen; l=0 with hu[0]=256 (a word that restarts at the
+            // left boundary) means the boundary program takes part, otherwise it does not.
+            // (only a discretionary that stands before every node of the region starts at l=0)
+            let pre_at_boundary =
+                restarts_at_boundary && region[..idx].iter().all(|n| matches!(n, N::Disc { .. }));
+            let tr_pre = |left: bool| -> Vec<N> {
+                (ctx.runner)(&format!("{x}-"), left, None).into_iter().map(|n| with_font(n, hf)).collect()
+            };
+            let want_pre = tr_pre(pre_at_boundary);
+            if *pre == want_pre {
+                rep.count("(2b)_pre_breaks_equal_translation");
+                if pre_at_boundary {
+                    rep.count("(2b)_pre_breaks_at_the_left_boundary");
+                }
+            } else if pre_at_boundary && *pre == tr_pre(false) {
+                rep.known.push((
+                    K_PRE_BOUNDARY,
+                    detail(json!({"disc": n.show(), "pre_break_with_left_boundary": show_list(&want_pre)})),
+                ));
+                rep.count("known:pre_break_at_word_start_without_left_boundary");
+            } else {
                 rep.violation(
                     "(2b)-pre-break-is-not-the-translation-without-left-boundary",
                     detail(json!({"disc": n.show(), "want_pre_break": show_list(&want_pre)})),
                 );
-            } else {
-                rep.count("(2b)_pre_breaks_equal_translation");
             }
             let rest: String = word.chars().skip(p).collect();
             let full_post: Vec<N> = (ctx.runner)(&rest, true, override_char)
@@ -481,6 +511,16 @@ fn check_word(
         rep.count("(3)_words_with_all_permitted_positions_accounted_for");
     }
     aligned
+}
+
+/// Where the nodes TeX replaces begin: at the word's first node, or one node earlier when that
+/// node is a ligature of the word's font made of the left boundary alone (§903: `init_list=null`
+/// and `init_lft`, the node is freed and rebuilt).
+fn region_start(before: &[N], w: &FoundWord) -> usize {
+    match w.first.checked_sub(1).map(|i| &before[i]) {
+        Some(N::Lig { orig, left: true, font, .. }) if orig.is_empty() && *font == w.font => w.first - 1,
+        _ => w.first,
+    }
 }
 
 fn with_font(n: N, hf: u32) -> N {
